@@ -360,6 +360,14 @@ def api_cases(rng, surface, quick, seed):
         for v in vecs:
             src = head + ", ".join(v) + ")"
             cases.append({"id": h(["api", kind, name, v]), "fam": "api", "ident": [kind, name, len(v)], "src": src})
+        # the same callable detached from its receiver and called as a plain function (this is undefined), and borrowed by other receivers
+        if head.startswith("var r = ") and "r[" in head:
+            acc = head[:head.rindex("(")]            # "var r = <expr>; r["name"]"
+            for v in vecs[:6]:
+                al = ", ".join(v)
+                cases.append({"id": h(["api-detached", kind, name, v]), "fam": "api", "ident": [kind, name + ":detached", len(v)], "src": acc.replace("; r[", "; var m = r[") + "; m(" + al + ")"})
+                cases.append({"id": h(["api-comma", kind, name, v]), "fam": "api", "ident": [kind, name + ":detached", len(v)], "src": acc.replace("; r[", "; (0, r[") + ")(" + al + ")"})
+                cases.append({"id": h(["api-borrowed", kind, name, v]), "fam": "api", "ident": [kind, name + ":borrowed", len(v)], "src": acc.replace("; r[", "; var m = r[") + "; [m.call(null" + (", " + al if al else "") + "), m.call(5), m.apply({}, [" + al + "]), m.call('s'" + (", " + al if al else "") + ")]"})
     return cases, len(methods)
 
 
@@ -386,7 +394,16 @@ MONSTERS = [
     ("object", "wide-object", "var M = {}; for (var i = 0; i < 5000; i++) { M['k' + i] = i; }"),
     ("array", "array-of-deep", "var D = [1]; for (var i = 0; i < 3000; i++) { D = [D]; } var M = [D, D, 3];"),
     ("object", "proto-of-array-cyclic", "var M = Object.create([1, 2]); M.me = M;"),
+    ("object", "regexp-nested-lookbehinds", "var M = new RegExp('(?<='.repeat(180) + 'a' + ')'.repeat(180));"),
+    ("object", "regexp-nested-lookaheads", "var M = new RegExp('(?='.repeat(180) + 'a' + ')'.repeat(180));"),
+    ("object", "regexp-nested-groups", "var M = new RegExp('('.repeat(400) + 'a' + ')'.repeat(400) + '\\\\400');"),
 ]
+# the same operations started from deep inside nested native calls (callbacks in callbacks): whatever host stack the operation
+# needs comes on top of what the nesting already uses
+NEST = "function NEST(k, f) { return k === 0 ? f() : [0].map(function () { return NEST(k - 1, f); })[0]; }\n"
+NEST_OPS = ["String(M)", "M + ''", "JSON.stringify(M)", "[M].join()", "M.test ? M.test('aaa') : 0", "M.exec ? M.exec('xaaa') : 0", "'aaa'.replace(M, '-')", "'aaa'.split(M)", "'aaa'.match(M)", "'aaa'.search(M)", "Object.keys(M)",
+            "M.nosuch", "'x' in M", "M == 1", "M < M", "Object.assign({}, M)", "[M, M].sort()", "Number(M)", "isNaN(M)", "new Error(M)", "M()", "new M()", "typeof M.valueOf()", "for (var k in M) { M[k]; }", "[3, 1, 2].sort(function (a, b) { return a - b; })",
+            "JSON.parse('[[[[[[[[[[1]]]]]]]]]]')", "(0, eval)('1 + 1')", "new Function('return 2')()", "'abc'.replace(/b/, function (m) { return m + m; })", "new RegExp('(a+)+b').test('aaaaaaaaaaaaaaaaaaaaaaaa')"]
 MONSTER_ARGS = ["", "M", "M, M", "0", "1, M", "function (a, b) { return M; }", "function (a, b) { return a < b ? -1 : 1; }", "'k'", "undefined, M", "null", "-1", "M, 0", "'', M"]
 MONSTER_OPS = ["String(M)", "M + ''", "'' + [M]", "M + M", "M < M", "M == M", "M == 1", "M == 'x'", "JSON.stringify(M)", "JSON.stringify([M])", "JSON.stringify({k: M})", "[M].join()", "[M, M].toString()", "M.toString()",
                "Number(M)", "parseInt(M)", "parseFloat(M)", "isNaN(M)", "isFinite(M)", "+M", "-M", "~M", "!M", "typeof M", "M ? 1 : 2", "M && 1", "M || 1", "({})[M]", "var o = {}; o[M] = 1; Object.keys(o)", "M in {}", "'x' in M",
@@ -412,6 +429,10 @@ def monster_cases(surface):
             for wrap in ("%s", "try { %s } catch (e) { String(e); [e.name, e.message]; }"):
                 src = build + "\n" + (wrap % op)
                 cases.append({"id": h(["monster-op", name, op, wrap[:3]]), "fam": "api", "ident": ["monster:" + name, "op:" + op[:40], 0], "src": src})
+        for op in NEST_OPS:
+            for depth in (60, 90, 97):
+                cases.append({"id": h(["monster-nest", name, op, depth]), "fam": "api", "ident": ["monster:" + name, "nested-natives:" + op[:30], 0],
+                              "src": build + "\n" + NEST + "try { NEST(%d, function () { return %s; }); } catch (e) { String(e); }" % (depth, op)})
         for mname in surface["methods"].get(base, []):
             for a in MONSTER_ARGS:
                 cases.append({"id": h(["monster-recv", name, mname, a]), "fam": "api", "ident": ["monster:" + name, mname, 1], "src": build + "\nM[%s](%s)" % (json.dumps(mname), a)})
